@@ -2,18 +2,21 @@
 # usage: scripts/check.sh <Cxx> [--tier quick|thorough] [--replay file] [...]
 # Rebuilds the checker against /repo's current working tree (hooks on), then runs it.
 set -u
-cd /verif
+# VERIF_DIR / VERIF_REPO exist for development copies only; registered commands use /verif and /repo
+V=${VERIF_DIR:-/verif}
+R=${VERIF_REPO:-/repo}
+cd "$V"
 . scripts/env.sh
 mkdir -p bin evidence
 prop=$1; shift
 case "$prop" in
-  C09|C18|C03|C08) mode=ov ;;
+  C09|C18|C03|C08|C12) mode=ov ;;
   *) mode=plain ;;
 esac
 if [ "$mode" = ov ]; then
   ovdir=$(mktemp -d "${TMPDIR:-/tmp}/verif-ov.XXXXXX")
   trap 'rm -rf "$ovdir"' EXIT
-  if ! out=$(go run ./cmd/instr -repo /repo -out "$ovdir" 2>&1); then
+  if ! out=$(go run ./cmd/instr -repo "$R" -out "$ovdir" 2>&1); then
     echo "INSTRUMENTATION FAILED"; echo "$out" | head -20; exit 2
   fi
   if ! out=$(go build -tags verif,verifov -overlay "$ovdir/overlay.json" -o bin/vcheck-ov ./cmd/vcheck 2>&1); then
